@@ -7,6 +7,24 @@ from .. import codec, gen
 
 ANN = ["any", "internal", "kphp", "read", "readwrite", "write"]
 
+ANN_SCHEMA = """
+int#a8509bda ? = Int;
+string#b5286e24 ? = String;
+---types---
+svc.user#0a0b0c01 id:int name:string = svc.User;
+svc.colorRed#0a0b0c02 = svc.Color;
+svc.colorBlue#0a0b0c03 = svc.Color;
+---functions---
+@read svc.getUser#0a0b0c10 id:int = svc.User;
+@write svc.putUser#0a0b0c11 id:int name:string = Int;
+@admin @write svc.dropUser#0a0b0c12 id:int = Int;
+@zeta @read svc.zetaRead#0a0b0c13 = Int;
+@any @mid svc.anyMid#0a0b0c14 = svc.Color;
+@readwrite @admin @zeta @mid svc.all#0a0b0c15 x:int = Int;
+@kphp @internal svc.internalOne#0a0b0c16 = Int;
+svc.plain#0a0b0c17 = Int;
+"""
+
 
 def scan_tl(text):
     """independent line-oriented scan of a TL1 schema: name, explicit tag, annotations, section, template-ness,
@@ -49,16 +67,25 @@ def run(ctx):
     thorough = ctx.tier == "thorough"
     ctx.make_scratch()
     sets = codec.REPO_SETS_ALL if thorough else codec.REPO_SETS_QUICK
-    configs = ["tl2all", "tl1only"] + (["split", "nobytes"] if thorough else [])
+    configs = ["tl2all", "tl1only", "split"] + (["nobytes"] if thorough else [])
     tot = {}
     compared = 0
-    for s in sets:
+    # custom annotations: some declared with --annotations, some only met in the schema (the generator warns and goes on)
+    ann_file = os.path.join(ctx.work, "annotations.tl")
+    open(ann_file, "w").write(ANN_SCHEMA)
+    files_of = dict(gen.REPO_SETS)
+    files_of["annotations"] = [ann_file]
+    files_of["annotations-declared"] = [ann_file]
+    for s in list(sets) + ["annotations", "annotations-declared"]:
         expected = {}
-        for f in gen.REPO_SETS[s]:
+        for f in files_of[s]:
             if f.endswith(".tl"):
-                expected.update(scan_tl(open(os.path.join(ctx.scratch, f)).read()))
-        for c in configs:
-            p = codec.build_pkg(ctx, s, gen.REPO_SETS[s], c, must=False)
+                expected.update(scan_tl(open(f if os.path.isabs(f) else os.path.join(ctx.scratch, f)).read()))
+        for c in (configs if not s.startswith("annotations") else ["tl2all", "split"]):
+            if s == "annotations-declared":
+                codec.CONFIGS[c + "+ann"] = dict(codec.CONFIGS[c], extra=("--annotations=zeta,admin,mid",))
+                c = c + "+ann"
+            p = codec.build_pkg(ctx, s, files_of[s], c, must=False)
             if not p:
                 continue
             t, extra = codec.run_mode(ctx, p, "c17", env={"VERIF_VALUES": 60 if thorough else 12})
@@ -93,6 +120,15 @@ def run(ctx):
                 got_ann = sorted(a for a in ANN if it[a])
                 if got_ann != [a for a in exp["ann"] if a in ANN]:
                     ctx.violation(dict(sig, **{"class": "annotations"}), "item %s: registry annotations %s, schema text %s" % (name, got_ann, exp["ann"]))
+                elif "annotations" in it:
+                    # every Annotation<Name>() accessor of the generated registry, incl. custom annotations
+                    got_all = sorted(a for a, on in it["annotations"].items() if on)
+                    if got_all != sorted(a.lower() for a in exp["ann"]):
+                        ctx.violation(dict(sig, **{"class": "annotations-custom"}), "item %s: Annotation*() accessors report %s, schema text says %s" % (name, got_all, exp["ann"]))
+                    for a in exp["ann"]:
+                        if a.lower() not in it["annotations"]:
+                            ctx.violation(dict(sig, **{"class": "annotation-accessor-missing"}), "item %s: no Annotation accessor for @%s" % (name, a))
+                    ctx.cov.setdefault("counters", {})["annotation_sets_compared"] = ctx.cov.get("counters", {}).get("annotation_sets_compared", 0) + 1
                 if not it["tl1"]:
                     ctx.violation(dict(sig, **{"class": "tl1-availability"}), "item %s comes from a TL1 schema but the registry reports HasTL1=false" % name)
                 if it["tl2"] != want_tl2:
